@@ -186,17 +186,21 @@ func verifTritsEq(a, b trinary.Trits) bool {
 
 // histories: each digit is an operation: 1/2 = Absorb of 1/2 blocks in one call, 3 = Absorb of 2
 // blocks split over two calls, 4/5 = Squeeze of 1/2 blocks, 6 = Clone and continue on both
-// (the clone must evolve identically and independently), 7 = Reset, 8 = rejected calls.
+// (the clone must evolve identically and independently), 7 = Reset, 8 = rejected calls, 9 = calls of
+// zero length (Squeeze of 0 trits, Absorb of 0 trits: accepted, nothing happens, nothing changes).
 var verifHistories = [][]int{
 	{1, 4}, {2, 4}, {3, 4}, {1, 5}, {1, 4, 4}, {1, 1, 5}, {2, 5, 4}, {1, 6, 4}, {1, 6, 1, 4}, {1, 4, 6, 4},
 	{1, 7, 1, 4}, {1, 4, 7, 2, 4}, {8, 1, 8, 4, 8}, {1, 8, 5}, {3, 6, 5},
 	{1, 1, 1, 4}, {2, 2, 5}, {1, 5, 5}, {1, 6, 7, 1, 4}, {1, 4, 4, 4, 4},
+	{1, 9, 4}, {9, 1, 9, 1, 5}, {1, 4, 9, 4},
 }
 
 // VerifC06Sponge: history number hist with a batch of b lanes.
 //
 //verif:run quick hist=0..14 b=1..2
+//verif:run quick hist=20..22 b=1
 //verif:run thorough hist=15..19 b=1..2
+//verif:run thorough hist=20..22 b=2
 //verif:run thorough hist=0,4,8 b=64
 //verif:replace transform verifStubTransform
 func VerifC06Sponge(hist, b int) {
@@ -258,6 +262,13 @@ func VerifC06Sponge(hist, b int) {
 			if clone != nil {
 				squeeze(clone, cloneRef, op-3)
 			}
+		case 9:
+			before := *c
+			squeeze(c, ref, 0)
+			if c.direction == SpongeAbsorbing {
+				verifAssert("zero.absorb.noerr", c.Absorb(make([]trinary.Trits, b), 0) == nil)
+			}
+			verifAssert("zero.state.untouched", verifStateEq(c, &before))
 		case 6:
 			clone = c.Clone()
 			cr := *ref
